@@ -46,21 +46,3 @@ def register(K):
             st.ghost = dict(st.ghost)
             st.ghost[("first_pickle", stream.t.get_id() if stream.t is not None else 0)] = t
         return V("bytes", t)
-
-    @K.spec("index_out_of_range")
-    def oor(eng, st, index, n):
-        if index.k == "slice":
-            return vbool(False)
-        i = eng.as_int(index)
-        return vbool(z3.Or(i < -n.t, i >= n.t))
-
-    @K.spec("getitem_eq")
-    def getitem_eq(eng, st, result, seq, index):
-        s = eng.as_seq(seq, st)
-        if index.k == "slice":
-            lo, hi, step = index.xs
-            sl = eng.slice_of(V("seq", s, elem=seq.elem), lo, hi, step, st)[0][1]
-            return vbool(eng.as_seq(result, st) == sl.t)
-        i = eng.as_int(index)
-        n = z3.Length(s)
-        return vbool(result.t == s[z3.If(i < 0, i + n, i)])
